@@ -162,6 +162,20 @@ impl Property for C05 {
                 ops.push(Op::Query { n: if rng.chance(1, 8) { 1 } else { 0 }, q: self.gen_q(rng) });
             }
         }
+        if rng.chance(1, 12) {
+            // long keys: every key and every key filter behind a common 255-byte prefix
+            use crate::c02::long_key;
+            for o in ops.iter_mut() {
+                match o {
+                    Op::Put { key, .. } | Op::GetExact { key, .. } => *key = long_key(key),
+                    Op::Query { q, .. } => match &mut q.kf {
+                        Kf::Exact(k) | Kf::Prefix(k) => *k = long_key(k),
+                        Kf::Any => {}
+                    },
+                    _ => {}
+                }
+            }
+        }
         ops
     }
     fn execute(&self, ops: &[Op]) -> anyhow::Result<Vec<Line>> {
